@@ -510,6 +510,47 @@ func (c18) decoratedRootOfRemote(c *fw.Case) {
 		}
 		c.Nontrivial("decorated-root-of-remote|" + where)
 	}
+	// the Loader's document itself carries non-asserting content: unreferenced definitions under either spelling of the
+	// keyword ("definitions" is not a 2020-12 keyword, but no reason to read the document differently), an unknown keyword
+	if rm := remote; rm != nil {
+		dec := gen.Clone(rm).(map[string]any)
+		where := gen.Pick(r, []string{"definitions", "definitions", "$defs", "x-unknown"})
+		if _, has := dec[where]; has {
+			return
+		}
+		if hasKeyStr(dec, "$defs") && where == "definitions" || hasKeyStr(dec, "definitions") && where == "$defs" {
+			return // the library refuses a schema object with both spellings (basicChecks)
+		}
+		dec[where] = map[string]any{"unused": gen.Clone(gen.Pick(r, mentions)), "unused2": false}
+		dtext := gen.Text(dec)
+		ld := &mapLoader{docs: map[string]string{"http://h/u.json": dtext}}
+		rs1, err, ok := compileDoc(c, baseText, &jsonschema.ResolveOptions{BaseURI: "http://h/root.json", Loader: ld.load})
+		if !ok {
+			return
+		}
+		if err != nil {
+			c.Violation("a Loader document decorated with unreferenced definitions is refused: "+err.Error(), map[string]any{"schema": json.RawMessage(baseText), "loader_document": json.RawMessage(dtext)})
+			return
+		}
+		for _, inst := range insts {
+			it := gen.Text(inst)
+			v0, ok := validate(c, rs0, baseText, gen.Canonical(it), it)
+			if !ok {
+				return
+			}
+			v1, ok := validate(c, rs1, baseText, gen.Canonical(it), it)
+			if !ok {
+				return
+			}
+			c.Eval(1)
+			if v0 != v1 {
+				c.Violation(fmt.Sprintf("an unreferenced %q member in the Loader's document changed the verdict (without it valid=%v, with it valid=%v)", where, v0, v1),
+					map[string]any{"schema": json.RawMessage(baseText), "loader_document": json.RawMessage(rtext), "decorated_loader_document": json.RawMessage(dtext), "instance": json.RawMessage(it)})
+				return
+			}
+		}
+		c.Nontrivial("decorated-remote|" + where)
+	}
 }
 
 // contentSchemaIdentifiers: contentSchema, contentMediaType and contentEncoding are annotations. A contentSchema is a
